@@ -29,6 +29,9 @@ def apply(c):
             open spec fn wf_nocomp() -> bool { $w::wf_nocomp() }
             open spec fn wf_eqv(&self, other: &Self) -> bool { self.0.wf_eqv(&other.0) }
             proof fn lemma_det(data: Seq<u8>, p: int, v1: &Self, e1: int, v2: &Self, e2: int) { $w::lemma_det(data, p, &v1.0, e1, &v2.0, e2); }
+            open spec fn wf_fit(&self) -> bool { self.0.wf_fit() }
+            open spec fn wf_empty_ok() -> bool { $w::wf_empty_ok() }
+            proof fn lemma_dec_ok(data: Seq<u8>, p: int, v: &Self, p2: int) { $w::lemma_dec_ok(data, p, &v.0, p2); }
             proof fn lemma_rt(&self, pre: Seq<u8>) { self.0.lemma_rt(pre); }
 """)
     # parse of the wrapper: `.map(|n| $t(n))` needs the closure result to be known
@@ -120,6 +123,9 @@ def apply(c):
                     lemma_rdata_dec_det(d2, p + 10, ty, v1, a, v2, b);
                 }
             }
+            open spec fn wf_fit(&self) -> bool { true }
+            open spec fn wf_empty_ok() -> bool { true }
+            proof fn lemma_dec_ok(data: Seq<u8>, p: int, v: &Self, p2: int) { lemma_rdata_wf_dec_ok(data, p, v, p2); }
             proof fn lemma_rt(&self, pre: Seq<u8>) {
                 match self {
                     $( RData::$i(d) => { d.lemma_rt(pre); } )+
@@ -138,6 +144,39 @@ def apply(c):
         }
         pub open spec fn rdata_cdec_opt(data: Seq<u8>, p: int, v: &RData, p2: int) -> bool {
             match v { RData::OPT(o) => OPT::wf_cdec(data, p, o, p2), _ => false }
+        }
+        /// IANA table: a code maps to a type that maps back to the code
+        pub proof fn lemma_type_code_rt(x: u16) ensures code_of_type(type_of_code(x)) == x {}
+        /// record-level: RDATA decoded from a DNS-sized message is within limits, canonical, and non-empty unless the record is
+        /// an OPT record or has RDLENGTH 0
+        pub proof fn lemma_rdata_wf_dec_ok(data: Seq<u8>, p: int, v: &RData, p2: int)
+            requires RData::wf_dec(data, p, v, p2), 0 <= p < data.len() <= 65535
+            ensures v.wf_ok(), v.wf_canon(), v is OPT || v is Empty || v.wf_enc().len() > 0
+        {
+            let x = be16(data[p], data[p + 1]);
+            let ty = type_of_code(x);
+            let d2 = data.subrange(0, p2);
+            lemma_type_code_rt(x);
+            if ty == TYPE::OPT {
+                lemma_rdata_dec_ok(d2, p, ty, v, p2);
+            } else if p2 == p + 10 {
+            } else {
+                let a = choose|p3: int| p + 10 <= p3 <= p2 && #[trigger] rdata_dec(d2, p + 10, ty, v, p3);
+                lemma_rdata_dec_ok(d2, p + 10, ty, v, a);
+                match v { RData::NULL(c, _) => { lemma_type_code_rt(*c); } _ => {} }
+            }
+        }
+        /// typed content decoded from a DNS-sized message is within limits and canonical
+        pub proof fn lemma_rdata_dec_ok(data: Seq<u8>, p: int, ty: TYPE, v: &RData, p2: int)
+            requires rdata_dec(data, p, ty, v, p2), 0 <= p < data.len() <= 65535
+            ensures v.wf_ok(), (match v { RData::NULL(_, d) => d.wf_canon(), RData::Empty(_) => true, _ => v.wf_canon() }),
+                    v is OPT || v.wf_enc().len() > 0
+        {
+            match v {
+                $( RData::$i(d) => { $i::lemma_dec_ok(data, p, d, p2); } )+
+                RData::NULL(c, d) => { NULL::lemma_dec_ok(data, p, d, p2); }
+                RData::Empty(_) => {}
+            }
         }
         /// the typed decoders are deterministic, and a record type has one variant
         pub proof fn lemma_rdata_dec_det(data: Seq<u8>, p: int, ty: TYPE, v1: &RData, e1: int, v2: &RData, e2: int)
